@@ -81,7 +81,7 @@ def schema_sx(nodes):
 class SchemaGen:
     """Builds valid Avro schemas as node vectors (root = node 0)."""
     def __init__(self, rng, max_nodes=12, max_depth=4, namespaces=("", "ns", "ns.sub"), logical=True,
-                 names_pool=None, ref_prob=0.2):
+                 names_pool=None, ref_prob=0.2, special_names=0.0, big_fixed_decimals=False):
         self.rng = rng
         self.nodes = []
         self.named = []          # indices of named nodes available for reference
@@ -92,12 +92,52 @@ class SchemaGen:
         self.logical = logical
         self.open_records = []   # records being defined (referencing them unconditionally is a cycle)
         self.ref_prob = ref_prob
+        # special_names (probability; 0 = the historical generator, same random stream): names that collide with the
+        # names the serializer's union lookup registers -- enum symbols called Null / String / Int / ... or like a named
+        # type of the schema, and named types sharing their SHORT name with another one of another namespace (siblings
+        # in one union in particular)
+        self.special_names = special_names
+        self.big_fixed_decimals = big_fixed_decimals
+        self.used_full = set()
+        self.pending_short = None    # short name the next named type must take (under another namespace)
+
+    SPECIAL_SYMBOLS = ["Null", "Null", "Null", "String", "Int", "Long", "Boolean", "Bytes", "Float", "Double", "Array", "Map",
+                       "None", "Some", "Duration", "Decimal", "Uuid"]
 
     def fresh_name(self, prefix):
         self.counter += 1
-        ns = self.rng.choice(self.namespaces)
+        if not self.special_names:
+            ns = self.rng.choice(self.namespaces)
+            base = "%s%d" % (prefix, self.counter)
+            return (ns + "." + base) if ns else base
+        rng = self.rng
         base = "%s%d" % (prefix, self.counter)
-        return (ns + "." + base) if ns else base
+        shorts = sorted(set(f.split(".")[-1] for f in self.used_full))
+        if self.pending_short is not None:
+            base, self.pending_short = self.pending_short, None
+        elif shorts and rng.random() < self.special_names * 0.5:
+            base = rng.choice(shorts)
+        nss = list(self.namespaces)
+        rng.shuffle(nss)
+        for ns in nss:
+            full = (ns + "." + base) if ns else base
+            if full not in self.used_full:
+                self.used_full.add(full)
+                return full
+        full = "q%d.%s" % (self.counter, base)
+        self.used_full.add(full)
+        return full
+
+    def symbols(self, n, in_union=False):
+        syms = ["S%d" % i for i in range(n)]
+        rng = self.rng
+        if self.special_names and rng.random() < self.special_names * (3 if in_union else 1):
+            pool = list(self.SPECIAL_SYMBOLS) + [f.split(".")[-1] for f in sorted(self.used_full)]
+            for i in rng.sample(range(n), rng.randint(1, n)):
+                c = rng.choice(pool)
+                if c not in syms:
+                    syms[i] = c
+        return syms
 
     def build(self):
         self.gen(0, in_union=False, conditional=False)
@@ -127,12 +167,19 @@ class SchemaGen:
                 choices += ["union"] * 3
         choices = [c for c in choices if self.kind_of_choice(c) not in exclude_kinds and not (c == "duration" and "duration" in exclude_kinds)]
         c = rng.choice(choices)
+        if self.pending_short is not None:
+            # the sibling of a named union branch: a named type with the same short name
+            named = [x for x in ("enum", "fixed", "decimal-fixed") + (("record",) if room else ()) if x in choices]
+            if named:
+                c = rng.choice(named)
+            else:
+                self.pending_short = None
         k = self.reserve()
         if c in PRIMS:
             self.nodes[k] = Node(c)
         elif c == "enum":
             n = rng.randint(1, 4)
-            self.nodes[k] = Node("enum", name=self.fresh_name("E"), symbols=["S%d" % i for i in range(n)])
+            self.nodes[k] = Node("enum", name=self.fresh_name("E"), symbols=self.symbols(n, in_union))
             self.named.append(k)
         elif c == "fixed":
             self.nodes[k] = Node("fixed", name=self.fresh_name("F"), size=rng.choice([0, 1, 2, 4, 12, 16]))
@@ -140,7 +187,8 @@ class SchemaGen:
         elif c == "decimal-bytes":
             self.nodes[k] = Node("bytes", lt=("decimal", rng.choice([0, 1, 2, 5]), rng.randint(1, 30)))
         elif c == "decimal-fixed":
-            self.nodes[k] = Node("fixed", name=self.fresh_name("D"), size=rng.choice([1, 2, 4, 8, 16, 17]),
+            self.nodes[k] = Node("fixed", name=self.fresh_name("D"),
+                                 size=rng.choice([1, 2, 4, 8, 16, 17] + ([17, 18, 20, 24, 31, 32, 33, 40] if self.big_fixed_decimals else [])),
                                  lt=("decimal", rng.choice([0, 1, 3]), rng.randint(1, 30)))
             self.named.append(k)
         elif c == "uuid":
@@ -165,12 +213,16 @@ class SchemaGen:
             n = rng.randint(1, 4)
             used = set()
             for _ in range(n):
+                before = len(self.nodes)
                 v = self.gen(depth + 1, True, True, exclude_kinds=tuple(used) + ("union",))
                 bk = self.branch_kind(v)
                 if bk in used:
                     continue
                 used.add(bk)
                 self.nodes[k].variants.append(v)
+                if (self.special_names and v >= before and bk.startswith("named:") and rng.random() < self.special_names):
+                    self.pending_short = self.nodes[v].name.split(".")[-1]
+            self.pending_short = None
         elif c == "record":
             self.nodes[k] = Node("record", name=self.fresh_name("R"), fields=[])
             self.named.append(k)
@@ -258,6 +310,7 @@ class ValueGen:
         self.big = big
         self.layouts = layouts
         self.decimal_limits = decimal_limits
+        self.big_fixed = False
 
     def terminating(self, k, seen=()):
         """can a value of node k be finite without descending further than necessary"""
@@ -297,8 +350,13 @@ class ValueGen:
         if kind == "double":
             return "(double %d)" % f64_bits(rng)
         if kind == "bytes":
+            if self.big and rng.random() < 0.8:
+                # long incompressible byte strings (container blocks that outgrow the codecs' buffers)
+                return "(bytes %s)" % hx(rng.randbytes(rng.choice([300, 1500, 6000])))
             return "(bytes %s)" % hx(rand_bytes(rng))
         if kind in ("string", "uuid"):
+            if self.big and kind == "string" and rng.random() < 0.8:
+                return "(string %s)" % hx(bytes(0x20 + (x % 95) for x in rng.randbytes(rng.choice([300, 1500, 6000]))))
             return "(string %s)" % hx(rand_str(rng))
         if kind == "array":
             cnt = 0 if deep else rng.choice([0, 0, 1, 2, 3, 5])
@@ -341,7 +399,10 @@ class ValueGen:
                 lim = 2 ** (8 * nb - 1)
                 m = rng.choice([0, 1, -1, lim - 1, -lim, rng.randint(-lim, lim - 1)])
                 if n.size > 16:
-                    return None
+                    if not self.big_fixed:
+                        return None
+                    # beyond the documented 16 bytes the serializer still writes the sign-extended number (str / Decimal path)
+                    m = rng.choice([0, 1, -1, -128, 127, -lim, lim - 1, rng.randint(-lim, lim - 1), -rng.randint(1, 10**6)])
                 return "(decimal %d 0)" % m
             lim = 2 ** 95 if self.decimal_limits else 2 ** 127
             m = rng.choice([0, 1, -1, 127, 128, -128, -129, 255, 256, 32767, 32768, -32768, -32769,
@@ -360,7 +421,8 @@ def schema_and_value(rng, **kw):
     """a valid schema together with a conforming value (evalue sexp); retries until one exists"""
     for _ in range(50):
         g = SchemaGen(rng, max_nodes=kw.get("max_nodes", rng.choice([2, 5, 10, 16])),
-                      max_depth=kw.get("max_depth", rng.choice([1, 3, 5])), logical=kw.get("logical", True))
+                      max_depth=kw.get("max_depth", rng.choice([1, 3, 5])), logical=kw.get("logical", True),
+                      special_names=kw.get("special_names", 0.0))
         nodes = g.build()
         vg = ValueGen(rng, nodes, layouts=kw.get("layouts", True))
         v = vg.gen(0)
